@@ -67,7 +67,36 @@ def handle (j : Json) : Except String Verdict := do
   if c11 == "fail" && sig == "" then
     sig := s!"present/C11/arrays-differ"
     why := "renderings of one logical batch gave different arrays or different outcomes"
+  -- malformed renderings (one entry of one record repeated): where the documented mapping is undefined for a row
+  -- (a schema field given twice) the conversion must fail in every presentation; the model must reproduce the outcome
+  let mal ← (match getObj j "malformed" with
+    | .ok v => do (← v.getArr?).toList.mapM fun rs => do (← rs.getArr?).toList.mapM svalOfJson
+    | .error _ => pure [])
+  let mimpl := ((getArr j "impl_malformed").toOption.map (·.toList)).getD []
+  let mut c11 := c11
+  let mut midx := 0
+  let mut nUndefined := 0
+  for rows in mal do
+    let io := mimpl.getD midx Json.null
+    let cls := implCls io
+    if cls == "panic" || cls == "hang" then c16 := "fail"
+    let model := toMarrow ext fields rows
+    if model.cls != cls then
+      agree := false
+      if sig == "" then
+        sig := s!"present/malformed/class/model={model.cls}/impl={cls}"
+        why := s!"malformed rendering #{midx}: model {model.cls} {repr model.ann}, implementation {cls}"
+    let undefined := rows.any fun r => match interpRow ext fields r with | .error _ => true | .ok _ => false
+    if undefined then
+      nUndefined := nUndefined + 1
+      if cls == "ok" then
+        c11 := "fail"
+        if sig == "" || sig.startsWith "present/malformed/class" then
+          sig := "present/C11/repeated-field-accepted"
+          why := s!"malformed rendering #{midx}: a record gives a schema field twice (the documented mapping is undefined) but the conversion succeeded"
+    midx := midx + 1
   let tags := (kinds.map (fun k => "row:" ++ k)).eraseDups ++ (fields.flatMap schemaTags).eraseDups ++ [if allSame then "one-batch" else "not-one-batch"]
+    ++ (if nUndefined > 0 then ["malformed:repeated-schema-field"] else if mal.isEmpty then [] else ["malformed:repeat-harmless"])
   return { agree := agree, spec := [("C11", c11), ("C16", c16)], tags := tags, sig := sig, why := why }
 
 end Driver.Suites.Present
